@@ -83,6 +83,9 @@ def run_unit(unit, seed=0, both=False):
             res['paths'] = 1
             res['seconds'] = time.time() - t0
             return res
+        from . import norm as _norm
+        _norm.shared_normalizer(reset=True)
+        lem.reset_memo()
         paths = engine.explore(unit.fn, unit.name, max_paths=unit.max_paths)
         for p in paths:
             o = p.outcome[0]
@@ -94,14 +97,19 @@ def run_unit(unit, seed=0, both=False):
                 continue
             res['paths'] += 1
             res['covers'].extend(p.ctx.covers)
+            groups = {}
             for ob in p.ctx.obligations:
-                v = solve.prove(ob.assumptions, ob.goal, seed=seed, both=both,
-                                lemmas=_proved_lib() if unit.use_lemmas else None, split_depth=unit.info.get('split_depth', 1))
-                model = decode_model(v.model, p.ctx.inputs) if v.status == 'refuted' else None
-                res['obligations'].append({'name': ob.name, 'status': v.status, 'backend': v.backend,
-                                           'seconds': v.seconds, 'kind': ob.info.get('kind', 'post'), 'model': model,
-                                           'detail': v.detail, 'path': ''.join('T' if d else 'F' for d in p.trace),
-                                           'info': {k: str(x) for k, x in ob.info.items()}})
+                groups.setdefault(len(ob.assumptions), []).append(ob)
+            for _, obs in sorted(groups.items()):
+                vs = solve.prove_group(obs[0].assumptions, [ob.goal for ob in obs], seed=seed, both=both,
+                                       lemmas=_proved_lib() if unit.use_lemmas else None,
+                                       split_depth=unit.info.get('split_depth', 1))
+                for ob, v in zip(obs, vs):
+                    model = decode_model(v.model, p.ctx.inputs) if v.status == 'refuted' else None
+                    res['obligations'].append({'name': ob.name, 'status': v.status, 'backend': v.backend,
+                                               'seconds': v.seconds, 'kind': ob.info.get('kind', 'post'), 'model': model,
+                                               'detail': v.detail, 'path': ''.join('T' if d else 'F' for d in p.trace),
+                                               'info': {k: str(x) for k, x in ob.info.items()}})
     except Exception:
         res['error'] = traceback.format_exc()
     res['seconds'] = time.time() - t0
